@@ -348,7 +348,20 @@ def index_scenario(rng, size='quick', **over):
     per_block = 4096 // rhs
     fan = (4096 - 16) // (klen + 8) + 1
     # number of keys: from a single key up to several tree levels where the key length makes that cheap
-    if klen >= 1000:
+    shaped = False
+    if klen >= 128 and rng.random() < 0.75:
+        # aim at a leaf count around multiples of the fan-out: that is where the two copies of the layer-splitting
+        # loop (collect_next_layer_nodes / shift_all_and_write) could disagree; one header per key, so that the
+        # number of leaves is ceil(nkeys / per_block)
+        if klen >= 1000:
+            targets = [1, 2, fan - 1, fan, fan + 1, 2 * fan - 1, 2 * fan, 2 * fan + 1, fan * fan - 1, fan * fan,
+                       fan * fan + 1, fan * fan + fan, 2 * fan * fan, fan ** 3]
+        else:
+            targets = [fan - 1, fan, fan + 1, 2 * fan] if size != 'quick' else [fan - 1, fan, fan, fan + 1]
+        leaves = rng.choice(targets)
+        nkeys = max(1, leaves * per_block - rng.choice([0, 0, 1, per_block - 1]))
+        shaped = True
+    elif klen >= 1000:
         nkeys = rng.choice([1, 2, 3, 4, fan, fan + 1, fan * fan + 2, 3 * fan * fan]) if size != 'quick' else rng.choice([1, 3, fan + 1, fan * fan + 2])
     elif klen >= 128:
         nkeys = rng.choice([1, 2, per_block, per_block + 1, fan + 2, 2 * fan * per_block // 3]) if size != 'quick' else rng.choice([1, per_block + 1, fan + 2])
@@ -366,9 +379,9 @@ def index_scenario(rng, size='quick', **over):
     lines = [line, 'states']
     seed = 1
     order = []
-    special = set(rng.sample(range(nkeys), min(nkeys, 3)))
+    special = set() if shaped else set(rng.sample(range(nkeys), min(nkeys, 3)))
     for i, k in enumerate(present):
-        n = rng.choice(run_choices) if i in special else rng.choice([1, 1, 1, 2])
+        n = 1 if shaped else (rng.choice(run_choices) if i in special else rng.choice([1, 1, 1, 2]))
         for _ in range(n):
             order.append(k)
     rng.shuffle(order)
